@@ -235,7 +235,12 @@ def patchoff_rules(ctx, facts, rep, rule="C01-PATCHOFF"):
             seen_z64 = True
             e1 = sk[1]["expr"]
             consts = sorted(x[2] for x in walk(e1) if x[0] in ("const", "named") and isinstance(x[2], int))
-            good = consts == sorted([fixed, spec["patch_offsets"]["extra_header"]]) and ".header_start" in tokens(e1) and ".file_name" in tokens(e1)
+            # the name term is the name's length in BYTES (what the header's name field occupies): a len() of the string / its bytes,
+            # not a count of characters or of anything else derived from the name
+            name_calls = [x for x in walk(e1) if x[0] == "call" and ".file_name" in tokens(x)]
+            bytelen = bool(name_calls) and all(re.search(r"(::|^)len$", x[1]) for x in name_calls) or \
+                (not name_calls and any(x[0] == "len" and ".file_name" in tokens(x) for x in walk(e1)))
+            good = consts == sorted([fixed, spec["patch_offsets"]["extra_header"]]) and ".header_start" in tokens(e1) and ".file_name" in tokens(e1) and bytelen
             ok &= good
             rep.check(good, rule, "zip64-patch-offset", where(up, sk[1]["span"]),
                       "seek(Start(header_start + %d + name length + 4)): fixed local header size + extra header" % fixed,
